@@ -402,6 +402,14 @@ bool Instance::configure_tx_txin() {
                 fprintf(stderr, "sig script did not contain a push op as expected\n");
                 return false;
             }
+            if (scriptSig != (CScript() << pushval)) {
+                fprintf(stderr, "sig script of a P2SH-embedded witness program must be exactly one push of that program\n");
+                return false;
+            }
+            if (!scriptPubKey.IsPayToScriptHash()) {
+                fprintf(stderr, "unknown/non-standard script pub key (expected a pay-to-script-hash script)\n");
+                return false;
+            }
             validation = CScript(pushval.begin(), pushval.end());
             hashsrc = Value(pushval);
             CScript::const_iterator it = scriptPubKey.begin();
